@@ -15,10 +15,10 @@ def profiles(avoid):
     P = progs.Profile
     return [
         ("exc", P(w=dict(var=8, assign=5, print=8, if_=4, while_=3, for_=3, block=2, fn=6, call=6, lam=2, opassign=2,
-                         brk=3, cont=3, ret=5, setitem=1, try_=14, throw=5), probe=10, expr_depth=2, max_depth=4,
+                         brk=3, cont=3, ret=5, setitem=1, try_=14, throw=5, tryfn=5), probe=10, expr_depth=2, max_depth=4,
                   stmts=(4, 12), uncaught=25, avoid=avoid)),
         ("exc-flat", P(w=dict(var=6, assign=4, print=8, if_=2, while_=1, for_=1, block=1, fn=3, call=4, lam=1, opassign=1,
-                              brk=1, cont=1, ret=3, setitem=0, try_=20, throw=6), probe=5, expr_depth=1, max_depth=3,
+                              brk=1, cont=1, ret=3, setitem=0, try_=20, throw=6, tryfn=8), probe=5, expr_depth=1, max_depth=3,
                        stmts=(3, 9), uncaught=25, avoid=avoid)),
     ]
 
